@@ -7,14 +7,8 @@
 //! exit 0: property held on everything explored; exit 1: `VIOLATION property=<ID> replay=<path>`;
 //! exit 2: inconclusive (watchdog, tooling, oracle self-check).
 
-mod cases;
-mod core;
-mod gens;
-mod obs;
-mod props;
-mod rsgen;
-
-use crate::core::{Ctx, Tier};
+use dmcheck::core::{self, Ctx, Tier};
+use dmcheck::props;
 use std::path::PathBuf;
 use std::sync::Arc;
 
@@ -25,6 +19,16 @@ fn main() {
         std::process::exit(2);
     }
     let id = args[1].clone();
+    if id == "CORPUS" {
+        // developer mode: write the seed corpus for the fuzz targets
+        if args.len() == 4 && args[2] == "--gen" {
+            core::install_panic_hook();
+            dmcheck::targets::generate_seed_corpus(std::path::Path::new(&args[3])).expect("write seed corpus");
+            return;
+        }
+        eprintln!("usage: dmcheck CORPUS --gen <dir>");
+        std::process::exit(2);
+    }
     let mut tier = match std::env::var("VERIF_TIER").ok().as_deref() {
         Some("thorough") => Tier::Thorough,
         _ => Tier::Quick,
@@ -79,7 +83,16 @@ fn main() {
     if std::env::var("VERIF_NO_REGRESS").is_err() {
         props::replay_regressions(&ctx, prop);
     }
+    // committed fuzz corpus through this property's oracle (both tiers)
+    dmcheck::fuzzstage::corpus_stage(&ctx, prop);
     (prop.run)(&ctx);
+    // coverage-guided stage (thorough tier only; VERIF_NO_FUZZ=1 skips it, VERIF_FUZZ_RUNS overrides the budget)
+    if tier == Tier::Thorough && std::env::var("VERIF_NO_FUZZ").is_err() {
+        let runs = std::env::var("VERIF_FUZZ_RUNS").ok().and_then(|s| s.parse().ok()).unwrap_or(prop.fuzz_runs);
+        if runs > 0 {
+            dmcheck::fuzzstage::fuzz_stage(&ctx, prop, runs);
+        }
+    }
     let extra = (prop.extra)(&ctx);
     let code = ctx.finish(prop.rule, prop.assumptions, extra);
     std::process::exit(code);
